@@ -76,6 +76,16 @@ impl DocSpace {
             layouts,
         });
     }
+    /// recompute the index after editing `entries` directly
+    pub fn reindex(&mut self) {
+        self.offsets = vec![0];
+        let mut n = 0;
+        for e in &self.entries {
+            n += e.layouts.len();
+            self.offsets.push(n);
+        }
+        self.n = n;
+    }
     pub fn add_all(&mut self, family: &'static str, docs: Vec<Document>, lay: Lay) {
         for (i, d) in docs.into_iter().enumerate() {
             self.add(family, format!("{family}#{i}"), d, lay);
